@@ -8,6 +8,13 @@
 #include <cfloat>
 #include <cmath>
 #include <string>
+#include "early_fork.h"
+// REDUCED: second build with -funsigned-char runs a fraction of the workload
+#ifdef C12_REDUCED
+static const uint64_t REDUCE = 8;
+#else
+static const uint64_t REDUCE = 1;
+#endif
 
 extern "C"
 {
@@ -353,7 +360,7 @@ static double biased64(vf::Rng &r)
 
 // (a) seeded boundary-biased binary32 patterns x every precision -1..12
 static const uint64_t RB = 500;
-static uint64_t rf32_count() { return (vf::thorough() ? 4000000ull : 400000ull) / RB; }
+static uint64_t rf32_count() { return (vf::thorough() ? 4000000ull : 400000ull) / RB / REDUCE; }
 static void rf32_run(uint64_t c)
 {
     vf::Rng r(vf::seed(), 0xC12F32, c);
@@ -373,7 +380,7 @@ static void rf32_run(uint64_t c)
 VF_SUITE(render_f32_biased, rf32_count, rf32_run)
 
 // (b) doubles through igris_f64toa and igris_ftoa
-static uint64_t rf64_count() { return (vf::thorough() ? 24000000ull : 1000000ull) / RB; }
+static uint64_t rf64_count() { return (vf::thorough() ? 24000000ull : 1000000ull) / RB / REDUCE; }
 static void rf64_run(uint64_t c)
 {
     vf::Rng r(vf::seed(), 0xC12F64, c);
@@ -396,11 +403,12 @@ VF_SUITE(render_f64_biased, rf64_count, rf64_run)
 //     quick = 64 blocks of 2^16 patterns spread over the exponent range
 static const int SWEEP_P[4] = {-1, 0, 3, 10};
 static const int OTHER_P[10] = {1, 2, 4, 5, 6, 7, 8, 9, 11, 12};
-static uint64_t sweep_count() { return vf::thorough() ? 65536 : 64; }
+static uint64_t sweep_count() { return vf::thorough() && REDUCE == 1 ? 65536 : 64 / REDUCE; }
 static void sweep_run(uint64_t c)
 {
-    uint32_t hi = vf::thorough() ? (uint32_t)c : (uint32_t)((c * 1024 + (vf::seed() * 37 + c * 13) % 1024) & 0xffff);
-    bool others = vf::thorough() ? (c % 16 == (vf::seed() & 15)) : (c % 4 == 0);
+    bool full = vf::thorough() && REDUCE == 1;
+    uint32_t hi = full ? (uint32_t)c : (uint32_t)((c * 1024 * REDUCE + (vf::seed() * 37 + c * 13) % 1024) & 0xffff);
+    bool others = full ? (c % 16 == (vf::seed() & 15)) : (c % 4 == 0);
     OutBuf &o = outbuf();
     for (uint32_t lo = 0; lo < 65536; lo++)
     {
@@ -773,7 +781,7 @@ static std::string digits(vf::Rng &r, int n)
     return s;
 }
 static const uint64_t LB = 200;
-static uint64_t lit_count() { return (vf::thorough() ? 10000000ull : 300000ull) / LB; }
+static uint64_t lit_count() { return (vf::thorough() ? 10000000ull : 300000ull) / LB / REDUCE; }
 static void lit_run(uint64_t c)
 {
     vf::Rng r(vf::seed(), 0xC12A, c);
@@ -815,7 +823,7 @@ static void lit_run(uint64_t c)
 VF_SUITE(parse_random, lit_count, lit_run)
 
 // (f) round trip: what the renderer prints is read back by the parsers (short decimals are exact to the printed digit)
-static uint64_t rt_count() { return (vf::thorough() ? 2000000ull : 100000ull) / RB; }
+static uint64_t rt_count() { return (vf::thorough() ? 2000000ull : 100000ull) / RB / REDUCE; }
 static void rt_run(uint64_t c)
 {
     vf::Rng r(vf::seed(), 0xC12B, c);
@@ -839,6 +847,76 @@ static void rt_run(uint64_t c)
 }
 VF_SUITE(roundtrip, rt_count, rt_run)
 
+
+// (g) calls made during static initialisation of this (earlier-linked) TU, in a forked child; judged by a case.
+struct EarlyData12
+{
+    EarlyText txt[5];
+    long ret_off[5];
+    double val[5];
+    long endoff[4];
+};
+static void early_calls12(EarlyData12 &E)
+{
+    char b[80];
+    char *r;
+    r = igris_f32toa(1234.5f, b, 3), E.txt[0].set(b, strlen(b)), E.ret_off[0] = r - b;
+    r = igris_f32toa(-0.0625f, b, -1), E.txt[1].set(b, strlen(b)), E.ret_off[1] = r - b;
+    r = igris_f64toa(18446744073709551616.0, b, 0), E.txt[2].set(b, strlen(b)), E.ret_off[2] = r - b;
+    r = igris_ftoa(-99.96875, b, 10), E.txt[3].set(b, strlen(b)), E.ret_off[3] = r - b;
+    r = igris_f32toa(-INFINITY, b, 2), E.txt[4].set(b, strlen(b)), E.ret_off[4] = r - b;
+    char *e = (char *)1;
+    E.val[0] = igris_atof64("-12.5e1x", &e), E.endoff[0] = e == (char *)1 ? -999 : (long)strlen(e);
+    e = (char *)1;
+    E.val[1] = igris_atof32("+.75E-1 ", &e), E.endoff[1] = e == (char *)1 ? -999 : (long)strlen(e);
+    e = (char *)1;
+    E.val[2] = igris_strtod("307582293.333333", &e), E.endoff[2] = e == (char *)1 ? -999 : (long)strlen(e);
+    e = (char *)1;
+    E.val[3] = igc_strtod("1e", &e), E.endoff[3] = e == (char *)1 ? -999 : (long)strlen(e);
+    E.val[4] = igc_atof("-0.001953125");
+}
+static EarlyRun<EarlyData12> g_early12(early_calls12);
+static uint64_t early_count() { return 1; }
+static void early_run(uint64_t)
+{
+    vf::cls("static-init");
+    if (g_early12.hung)
+        vf::fail("static-init:hang", "a call made during static initialisation did not return within 5 s of CPU time");
+    if (g_early12.died)
+        vf::fail("static-init:crash", "the child that calls the converters during static initialisation died (sanitizer report in stderr.txt)");
+    const EarlyData12 &E = *g_early12.data;
+    static const double X[4] = {1234.5, -0.0625, 18446744073709551616.0, -99.96875};
+    static const int NFRAC[4] = {3, -1, 0, 10};
+    for (int i = 0; i < 4; i++)
+    {
+        std::string t(E.txt[i].d, E.txt[i].len);
+        bool ok = !t.empty() && t.find_first_not_of("-0123456789.") == std::string::npos && E.ret_off[i] == 0;
+        size_t dot = t.find('.');
+        int nfrac = dot == std::string::npos ? 0 : (int)(t.size() - dot - 1);
+        if (NFRAC[i] >= 0 && nfrac != NFRAC[i])
+            ok = false;
+        double v = ok ? strtod(t.c_str(), nullptr) : 0;
+        double tol = pow(10.0, -nfrac) + 4 * ulp32(fabs(X[i]) > 1 ? fabs(X[i]) : 1.0);
+        if (!ok || fabs(v - X[i]) > tol)
+            vf::fail("static-init:render:!=reference", "call %d (x=%.17g) gave \"%s\" (returned buf%+ld)", i, X[i], vf::esc(t.data(), t.size()).c_str(), E.ret_off[i]);
+    }
+    if (std::string(E.txt[4].d, E.txt[4].len) != "-inf" || E.ret_off[4] != 0)
+        vf::fail("static-init:render:!=reference", "-inf gave \"%s\"", vf::esc(E.txt[4].d, E.txt[4].len).c_str());
+    static const double PV[5] = {-125.0, 0.075, 307582293.333333, 1.0, -0.001953125};
+    static const long PE[4] = {1, 1, 0, 1};
+    for (int i = 0; i < 5; i++)
+    {
+        double u = i == 1 ? ulp32(fabs(PV[i])) : ulp64(fabs(PV[i]));
+        static const int ALLOWED[5] = {4, 7, 10, 4, 13}; // 4 + decimal scaling steps of each literal
+        if (fabs(E.val[i] - PV[i]) > ALLOWED[i] * u || (i < 4 && E.endoff[i] != PE[i]))
+            vf::fail("static-init:parse:!=reference", "call %d value %.17g (want %.17g), %ld characters behind *end (want %ld)", i, E.val[i], PV[i],
+                     i < 4 ? E.endoff[i] : 0, i < 4 ? PE[i] : 0);
+    }
+    VF_OK("converters called during static initialisation of an earlier-linked TU are within the same tolerances");
+    vf::count_bulk(1, 1);
+}
+VF_SUITE(static_init, early_count, early_run)
+
 extern "C" void vf_setup()
 {
     for (const char *c : {"render: inf/nan -> token with the right sign, returned pointer == buf",
@@ -854,6 +932,7 @@ extern "C" void vf_setup()
                           "parse: literal with a positive exponent", "parse: literal with a fraction", "parse: negative literal",
                           "parse: dangling e/E after the literal is not consumed",
                           "parse: text without a mantissa digit: *end written and inside the text",
+                          "converters called during static initialisation of an earlier-linked TU are within the same tolerances",
                           "round trip: igris_f32toa text is read back by every parser like glibc reads it"})
         vf::require(c);
 }
